@@ -73,6 +73,8 @@ def universe_blocks(tier, sd):
             dict(proc="cont", api="reg", sa=[ci["big"], ci["bigL"], ci["roomL"]], sra=[1, 2, 7],
                  sb=[ci["cube"], ci["L"], ci["twin"]], srb=[1, 5],
                  dx=[-8, -4, -2, 0, 2, 4, 6], dy=[-6, -4, 0, 2, 4], dz=[-4, 0, 2]),
+            dict(proc="cont", api="reg", sa=[ci["big"], ci["roomL"]], sra=[1, 7], sb=[ci["bar"], ci["L"]], srb=[1, 2],
+                 dx=[-8, -4, 0, 4, 6], dy=[-6, 0, 4], dz=[0, 2], sg=[1]),
             dict(proc="foot", api="reg", sa=[1], sra=[1], sb=[ci["cube"], ci["L"], ci["U"], ci["twin"]],
                  srb=[1, 2, 5, 9], dx=list(range(-14, 15, 2)), dy=list(range(-14, 15, 4)), dz=[0], poly=0),
             dict(proc="foot", api="reg", sa=[1], sra=[1], sb=[ci["bar"], ci["brick"]], sqb=[5 + sd % 4, 12], srb=[1, 2],
@@ -90,7 +92,7 @@ def universe_blocks(tier, sd):
             dict(proc="dist", api="obj", sa=small, sra=[1, 2], sb=small, srb=rot_all[sd % 3 :: 3],
                  dx=win["dx"][1:-1], dy=win["dy"][1:-1], dz=win["dz"]),
             dict(proc="cont", api="reg", sa=G.ROOMS, sra=[1, 7], sb=small, srb=rot_all[sd % 4 :: 4],
-                 dx=list(range(-8, 9, 2)), dy=list(range(-6, 7, 2)), dz=[-4, 0, 2]),
+                 dx=list(range(-8, 9, 2)), dy=list(range(-6, 7, 2)), dz=[-4, 0, 2], sg=[0, 1]),
             dict(proc="foot", api="reg", sa=[1], sra=[1], sb=small, srb=rot_all[sd % 2 :: 2],
                  dx=list(range(-16, 17, 2)), dy=list(range(-16, 17, 4)), dz=[0], poly=0),
             dict(proc="isect", api="obj", sa=G.TILTABLE[:2], sqa=rot_all[4::2], sra=[1, 2, 3, 4], sb=small[:5], srb=[1, 2], **win),
@@ -105,6 +107,7 @@ def universe_blocks(tier, sd):
         b.setdefault("poly", 0)
         b.setdefault("sqa", [1])
         b.setdefault("sqb", [1])
+        b.setdefault("sg", [0])
         b["pa"] = [0, 0, 0] if b["proc"] == "foot" else [4, -2, 2]
         if b["proc"] == "foot":
             for pi in range(1, len(G.POLYS) + 1):
@@ -118,7 +121,7 @@ def universe_blocks(tier, sd):
 
 def block_size(b):
     n = 1
-    for k in ("sa", "sqa", "sra", "sb", "sqb", "srb", "dx", "dy", "dz"):
+    for k in ("sa", "sqa", "sra", "sb", "sqb", "srb", "dx", "dy", "dz", "sg"):
         n *= len(b[k])
     return n
 
@@ -247,8 +250,8 @@ def replay_case(c):
             out["exit"] = REAL_DIST.get(pr.take("obj_dist"))
             out["obs_rev"] = float(b.minimumDistanceTo(a))
         elif c["proc"] == "cont":
-            reg = G.make_region(c["a"], G.compose(c["qa"], c["ra"]), c["pa"])
-            o = G.make_object(c["b"], c["rb"], c["pb"], c["qb"])
+            reg = G.make_region(c["a"], G.compose(c["qa"], c["ra"]), c["pa"], c["g"])
+            o = G.make_object(c["b"], c["rb"], c["pb"], c["qb"], c["g"])
             out["obs"] = bool(reg.containsObject(o))
             out["exit"] = REAL_CONT.get(pr.take("mvr_cont"))
         elif c["proc"] == "foot":
@@ -277,6 +280,8 @@ def describe(c):
     }
     if c["proc"] == "foot":
         d["A"] = {"footprint": G.POLYS[c["poly"] - 1]}
+    if c["g"]:
+        d["frame"] = "whole configuration (positions and orientations) turned by yaw atan2(4, 3) about the world z axis"
     return d
 
 
@@ -319,13 +324,15 @@ def select(cases, outs, quota, rng):
         if not os_:
             raise MachineryError(f"no TLC output for case {c['id']}")
         tilt = "ptilt" if c["qa"] > 1 or c["qb"] > 1 else ""   # tilted through the parent frame only
+        tilt += "gframe" if c["g"] else ""                      # whole configuration in the generic frame
+        tilt += c.get("tag", "")                                # large object at a container extremity
         key = (c["proc"], c["api"] + tilt, tuple(sorted({o["exit"] for o in os_})), os_[0]["exp"])
         buckets.setdefault(key, []).append(c)
     chosen = []
     for key in sorted(buckets):
         lst = buckets[key]
         rng.shuffle(lst)
-        q = quota // 4 if key[3] == "free" else quota
+        q = quota // 4 if key[3] == "free" else (3 * quota if key[1].endswith("xtr") else quota)
         chosen += lst[: max(q, 5)]
     chosen.sort(key=lambda c: c["id"])
     return chosen, {"/".join([k[0], k[1], "+".join(k[2]), k[3]]): len(v) for k, v in buckets.items()}
@@ -380,7 +387,7 @@ def main(tier):
         exp = os_[0]["exp"]
         model_exits = sorted({o["exit"] for o in os_})
         nontrivial = exp != "free"
-        ck.case((c["proc"], c["api"], c["a"], c["qa"], c["ra"], tuple(c["pa"]), c["b"], c["qb"], c["rb"], tuple(c["pb"]), c["poly"]), nontrivial)
+        ck.case((c["proc"], c["api"], c["a"], c["qa"], c["ra"], tuple(c["pa"]), c["b"], c["qb"], c["rb"], tuple(c["pb"]), c["poly"], c["g"]), nontrivial)
         rep = {"property": "C04", "configuration": describe(c), "case": c, "expected": exp,
                "model_exits": model_exits, "observed": r}
         if "error" in r:
